@@ -1,7 +1,7 @@
 (* Extraction of the executable models for the correspondence check.
    ExtrOcamlBasic only: bool, option, list, prod, unit, sumbool mapped to OCaml's;
    N, Z, positive, nat stay the extracted inductive types (no Extract Constant). *)
-Require Import Layout MRecon Recon Mgr Updater Lfdbt Adapt.
+Require Import Layout MRecon Recon Mgr Updater Lfdbt Adapt V1 Orig.
 Require Extraction.
 Require Import ExtrOcamlBasic.
 Separate Extraction
@@ -12,4 +12,5 @@ Separate Extraction
   Mgr.crash_mem Mgr.blank_dev Mgr.with_mem Mgr.arm_fail Mgr.clear_flags Mgr.reset_rh Mgr.poke Mgr.received Mgr.total Mgr.orig_check_crc
   Updater.run_session Lfdbt.rows_for
   Adapt.data_store Adapt.data_get Adapt.parity_store Adapt.parity_get Adapt.matrix_set_row Adapt.matrix_row Adapt.matrix_num_rows
-  Adapt.fresh_dev Adapt.w_erase.
+  Adapt.fresh_dev Adapt.w_erase
+  V1.v1_handle V1.v1_done V1.naive_start V1.naive_recover Orig.orig_start Orig.orig_app_boot_status Orig.orig_bl_boot_status Orig.orig_cancel.
